@@ -124,7 +124,13 @@ type Pool struct {
 	real  sync.Pool
 	once  sync.Once
 	items []interface{}
+	held  map[interface{}]int
 }
+
+// PoolViolations collects pool-discipline violations seen under control: an object handed out
+// while another holder has not returned it yet, or pooled twice (two callers would then share
+// one object's state under real parallelism).
+var PoolViolations []string
 
 func (p *Pool) Get() interface{} {
 	if !vrt.Active() {
@@ -143,6 +149,13 @@ func (p *Pool) Get() interface{} {
 	i := n - 1 - c // c=0 -> most recently pooled
 	v := p.items[i]
 	p.items = append(p.items[:i], p.items[i+1:]...)
+	if p.held == nil {
+		p.held = map[interface{}]int{}
+	}
+	if p.held[v] > 0 {
+		PoolViolations = append(PoolViolations, "Pool.Get handed out an object that another caller still holds (it was put back more than once)")
+	}
+	p.held[v]++
 	return v
 }
 
@@ -153,6 +166,14 @@ func (p *Pool) Put(v interface{}) {
 		return
 	}
 	vrt.Yield("Pool.Put")
+	for _, it := range p.items {
+		if it == v {
+			PoolViolations = append(PoolViolations, "Pool.Put of an object that is already pooled (double release)")
+		}
+	}
+	if p.held != nil && p.held[v] > 0 {
+		p.held[v]--
+	}
 	p.items = append(p.items, v)
 }
 
@@ -160,4 +181,4 @@ func (p *Pool) Put(v interface{}) {
 func (p *Pool) Pooled() int { return len(p.items) }
 
 // Reset empties the modelled pool (between executions).
-func (p *Pool) Reset() { p.items = nil }
+func (p *Pool) Reset() { p.items = nil; p.held = nil }
